@@ -266,8 +266,9 @@ sys.exit(1 if msg else 0)
 
 def main(tier, seed):
     rep = Report(PID, tier, seed, "proof")
-    rep.assumed_contract("core field functions are positively homogeneous in their length arguments (degree 0 magnets, -1 currents, "
-                         "-3 dipole) — ASSUMED, not proved: " + ", ".join(STUB_RULES))
+    rep.assumed_contract("core field functions are positively homogeneous in their length arguments (degree 0 magnets, -1 currents, -3 dipole): PROVED here for "
+                         "magnet_cuboid_Bfield, dipole_Hfield, triangle_Bfield (real code, dimension calculus incl. additive degrees of logarithms); ASSUMED for the "
+                         "stubs of the remaining cores: cyl_dia_H, cyl_ax_B, seg_H, circle_H, polyline_H, point_inside, det_neg")
     rep.assumed_contract("tetrahedron point_inside / chirality determinant sign invariant under common positive scaling (assumed)")
     rep.axiom("homogeneity rules of the dimension calculus: sqrt(s^2 q) = s sqrt(q), arctan2(s y, s x) = arctan2(y, x) for s > 0, order preserved by s > 0")
     rep.assume("TriangularMesh wrapper, mesh validation and face orientation: only in the numeric stand-in (known absolute tolerances there)")
@@ -275,6 +276,12 @@ def main(tier, seed):
     names = list(WRAPPERS)
     tasks = [(nm, (lambda r, nm=nm: dimension_obligations(r, nm))) for nm in names]
     tasks.append(("getBH_level1", level1_obligations))
+    from checks import c06_cores
+    from contracts.bhjm import CORES
+
+    core_known = {"triangle_Bfield": ("triangle-core-absolute-tolerance", {1e-12})}
+    for cn in CORES:
+        tasks.append((f"core.{cn}", lambda r, cn=cn: c06_cores.homogeneity(r, cn, core_known)))
     fails = run_parallel(rep, tasks)
     known = {k["id"]: k for k in load_known() if k["property"] == PID and k.get("status") == "known"}
     for rid in sorted({f["known_region"] for f in fails if f.get("known_region")}):
